@@ -132,6 +132,111 @@ def enrich(S):
                                         for o in (s["r"]["a"], s["r"]["b"]):
                                             if o["k"] == "const" and o.get("v") == "0":
                                                 c.ing.add("ZERO")
+        # (2b) a check written as a searching adaptor (`if msgs.iter().enumerate().any(|(j, m)| m.mac != key ^ ..) { return Err }`):
+        # what the predicate compares are the ingredients of the check
+        for cbi, names in list(c.calls):
+            tl = names[-1].rsplit("::", 1)[-1] if names else ""
+            if tl not in ("any", "all", "find", "position", "find_map"):
+                continue
+            t = b.blocks[cbi]["t"]
+            todo = []
+            for a in t["args"]:
+                ty = a["p"]["ty"] if a["k"] != "const" else ""
+                if "{closure:" in ty:
+                    todo.append(ty[ty.index("{closure:") + 9:ty.rindex("}")])
+            seen_c = set()
+            while todo:
+                cdef = todo.pop()
+                if cdef in seen_c:
+                    continue
+                seen_c.add(cdef)
+                for ck in fg.by_id.get(cdef, []):
+                    cb = fg.bodies[ck]
+                    cback = fg.backward([(ck, 0, None)], node_ok=lambda n: n[0] == "F" or n[0] == ck, local=True)
+                    clocs = {n[1] for n in cback if n[0] == ck}
+                    # `a != x || b != y` is control flow inside the predicate: the conditions that decide which value is
+                    # returned belong to what the predicate tests
+                    from an import control_deps as _cd0
+                    ccd0 = _cd0(cb)
+                    for _round in range(3):
+                        extra = []
+                        for bi2, blk2 in enumerate(cb.blocks):
+                            if not any(st["k"] == "assign" and st["p"]["l"] in clocs for st in blk2["s"]):
+                                continue
+                            for (sw2, _s2) in ccd0.get(bi2, ()):
+                                t2 = cb.blocks[sw2]["t"]
+                                if t2["k"] == "switch" and t2["o"]["k"] != "const":
+                                    extra += [x for x in fg.operand_nodes(ck, t2["o"]) if x not in cback]
+                        if not extra:
+                            break
+                        more = fg.backward(extra, node_ok=lambda n: n[0] == "F" or n[0] == ck, local=True)
+                        for x, e_ in more.items():
+                            cback.setdefault(x, e_)
+                        clocs = {n[1] for n in cback if n[0] == ck}
+                    for n in cback:
+                        if n[0] == "F":
+                            continue
+                        ty = S.node_ty(n)
+                        if ty in (secmod.T_DELTA, "&" + secmod.T_DELTA):
+                            c.ing.add("DELTA")
+                        if ty in (secmod.T_KEY, "&" + secmod.T_KEY) or "(polytune::mpc::data_types::Mac, polytune::mpc::data_types::Key)" in ty:
+                            c.ing.add("KEY")
+                        if ty in (secmod.T_LABEL, "&" + secmod.T_LABEL):
+                            c.ing.add("LABEL")
+                        if S.labels_of(n) & c.labels:
+                            if ty in ("bool", "&bool"):
+                                c.ing.add("PEER_BIT")
+                                c.ing.add("BIT_BOUND")
+                            if secmod.T_MAC in ty or ty in ("u128", "&u128"):
+                                c.ing.add("PEER_MAC")
+                            c.cond_nodes.setdefault(n, None) if isinstance(c.cond_nodes, dict) else None
+                        # a captured place (`delta.0` captured by reference is a `&u128`): what it is in the enclosing body
+                        if n[1] == 1 and isinstance(n[2], int):
+                            for e_ in fg.inn.get(n, ()):
+                                if e_.kind == "upvar" and e_.src[0] != "F":
+                                    pb = fg.backward([e_.src], node_ok=lambda x: x[0] == e_.src[0], edge_ok=lambda e2: e2.kind in ("copy", "ref", "base2field", "field2whole"))
+                                    for x in pb:
+                                        tx = S.node_ty(x)
+                                        if tx in (secmod.T_DELTA, "&" + secmod.T_DELTA):
+                                            c.ing.add("DELTA")
+                                        if tx in (secmod.T_LABEL, "&" + secmod.T_LABEL):
+                                            c.ing.add("LABEL")
+                    # received bits that steer what is compared (`key ^ if d { delta } else { 0 }`)
+                    from an import control_deps as _cd
+                    ccd = _cd(cb)
+                    for bi2, blk2 in enumerate(cb.blocks):
+                        if not any(st["k"] == "assign" and st["p"]["l"] in clocs for st in blk2["s"]):
+                            continue
+                        for (sw2, _s2) in ccd.get(bi2, ()):
+                            t2 = cb.blocks[sw2]["t"]
+                            if t2["k"] != "switch" or t2["o"]["k"] == "const" or t2["o"]["p"].get("ty") != "bool":
+                                continue
+                            sb = fg.backward(fg.operand_nodes(ck, t2["o"]), node_ok=lambda x: x[0] == ck, edge_ok=lambda e2: e2.kind in ("copy", "ref", "un", "base2field", "field2whole"))
+                            if any((S.labels_of(x) & c.labels) and S.node_ty(x) in ("bool", "&bool") for x in sb):
+                                c.ing.add("PEER_BIT")
+                                c.ing.add("BIT_BOUND")
+                    for blk in cb.blocks:
+                        for st in blk["s"]:
+                            if st["k"] == "assign" and st["p"]["l"] in clocs and st["r"]["k"] == "bin" and st["r"]["op"] in ("Ne", "Eq"):
+                                c.ing.add("CMP")
+                                for o in (st["r"]["a"], st["r"]["b"]):
+                                    if o["k"] == "const" and "v" in o:
+                                        c.ing.add("LIT:" + o["v"])
+                        tt = blk["t"]
+                        if tt["k"] == "call" and tt["d"]["l"] in clocs:
+                            for n2 in callee_names(tt):
+                                tail2 = n2.rsplit("::", 1)[-1]
+                                if n2.endswith("faand::open_commitment"):
+                                    c.ing.add("COMMIT")
+                                if tail2 in ("ne", "eq"):
+                                    c.ing.add("CMP")
+                                if tail2 == "clmul":
+                                    c.ing.add("CLMUL")
+                                if tail2 in ("any", "all", "find", "position"):
+                                    for a2 in tt["args"]:
+                                        ty2 = a2["p"]["ty"] if a2["k"] != "const" else ""
+                                        if "{closure:" in ty2:
+                                            todo.append(ty2[ty2.index("{closure:") + 9:ty2.rindex("}")])
         if "LIT:0" in c.ing and "CMP" in c.ing and "COMMIT" not in c.ing:
             c.ing.add("ZERO")
     # (3) a check moved into a helper `fn verify(..) -> Result`: the caller's `?` on its result is a
@@ -198,7 +303,7 @@ def rule_checks(S, res, phases, labs):
                 # what has to be covered are the MAC components of the message: one comparison of a tuple of MACs
                 # covers as many of them as two comparisons of one MAC each
                 comp = S.comp.get(l, {})
-                macs = {n for c in hits for n in c.cond_nodes if n in comp and n[0] != "F" and n[2] is None and S.node_ty(n).lstrip("&").endswith("data_types::Mac")}
+                macs = {(n[0], n[1]) for c in hits for n in c.cond_nodes if n in comp and n[0] != "F" and S.fg.bodies[n[0]].locals[n[1]]["ty"].lstrip("&").endswith("data_types::Mac")}
                 if len(macs) >= count and len(sites) < count:
                     sites = macs
             inst = "%s|%s" % (l, name)
